@@ -54,7 +54,8 @@ Definition P (i : nat) : zpulse := nth i ps pdef.
 
 Definition opt (m n : nat) : nat :=
   let pm := P m in let pn := P n in
-  let same := same_geobj pm && same_geobj pn && same_len pm && same_len pn && same_dir pm && same_dir pn in
+  let same := same_geobj pm && same_geobj pn && same_len pm && same_len pn && same_dir pm && same_dir pn
+              && eqb (fst (zp_len pm)) (fst (zp_len pn)) in    (* both pulses have the same segment length *)
   let o := if same && Nat.eqb (fst (zp_geo pm)) (fst (zp_geo pn))
               && negb (non_vertical_grounded pm || non_vertical_grounded pn) then 1%nat else 0%nat in
   if Nat.eqb m n then (2 * o)%nat else o.
